@@ -82,8 +82,10 @@ func (b *ClassifierBackend) ClassifyLicenses(numTasks int, filenames []string, h
 	var wg sync.WaitGroup
 	analyze := func(filename string) {
 		defer func() {
-			wg.Done()
+			// Return the token before signalling completion: once the last
+			// wg.Done() has run, the task channel may be closed.
 			task <- true
+			wg.Done()
 		}()
 		if err := b.classifyLicense(filename, headers); err != nil {
 			errs <- err
